@@ -9,9 +9,10 @@ V = Path(__file__).resolve().parent.parent
 props = [json.loads(l)["id"] for l in (V / "properties.jsonl").read_text().splitlines() if l.strip()]
 checks, na = [], []
 reasons = json.loads((V / "manifest.d" / "not_applicable.json").read_text()) if (V / "manifest.d" / "not_applicable.json").exists() else {}
+enabled = json.loads((V / "manifest.d" / "_enabled.json").read_text())
 for p in props:
     f = V / "manifest.d" / f"{p}.json"
-    if f.exists():
+    if f.exists() and p in enabled:
         checks.append(json.loads(f.read_text()))
     else:
         na.append({"property_id": p, "reason": reasons.get(p, "check not built yet (work in progress; see DESIGN.md section 7 for the planned model and theorems)")})
